@@ -5,6 +5,7 @@ CONSTANTS Keys <- KeysDef
   MaxDepth = 4
   MaxSteps = 7
   Emit = FALSE
+  Deferred = "both"
   RestoreAll = FALSE
 INVARIANT TypeOK
 PROPERTY PropExitRestores
